@@ -1,5 +1,6 @@
 (* C16 — FormatString is a lossless, canonically indented re-layout of String. *)
 From Anytype Require Import Base FloatBits Value GoInt Utf8 Json JsonDoc JsonRefProofs SerializeProofs FormatProofs FormatModel.
+From Anytype Require Import FloatText.
 From Anytype Require Import SourceTables SourceTablesProofs. From AnytypeGen Require Import GenTables.
 Local Open Scope Z_scope.
 
@@ -8,7 +9,9 @@ Section C16.
   Variable pfloat : bytes -> option Z.
   Hypothesis F2 : forall b, is_finite b = true -> fbits_ok b = true -> exists n, parse_num_text (ser_float fmt_e fmt_f b) = Some n.
   Hypothesis F1 : forall b, is_finite b = true -> fbits_ok b = true -> pfloat (ser_float fmt_e fmt_f b) = Some b.
-  Hypothesis F4 : forall b, is_finite b = true -> fbits_ok b = true -> pint0 (ser_float fmt_e fmt_f b) = None.
+  (* F5: the 'e' format contains an 'e' or a '.'; that a float's text is never an integer literal follows (FloatText.ser_float_not_int) *)
+  Hypothesis F5 : forall b, is_finite b = true -> fbits_ok b = true -> In x65 (fmt_e b) \/ In x2e (fmt_e b).
+  Let F4 : forall b, is_finite b = true -> fbits_ok b = true -> pint0 (ser_float fmt_e fmt_f b) = None := ser_float_not_int fmt_e fmt_f F2 F5.
   Notation ser := (ser fmt_e fmt_f).
   (* FormatString(n), 0 <= n <= 10, is json.Indent(String(), "", n spaces); json.Indent is modelled at specification level:
      decode with the reference decoder, re-lay out canonically ([relayout]), empty output when the text is not JSON *)
